@@ -2,7 +2,7 @@
 from ..rules import folds
 from .common import declare
 
-RULES = ['MIRROR', 'ACCRUE-DECAY-SIG', 'DECAY-UNREACHABLE', 'FOLD-DERIVE', 'WINDOW-FIFO', 'DECAY-CONSERVES', 'AGG-TABLE']
+RULES = ['MIRROR', 'ACCRUE-DECAY-SIG', 'DECAY-UNREACHABLE', 'FOLD-DERIVE', 'WINDOW-FIFO', 'DECAY-CONSERVES', 'FULL-POSITIONAL', 'AGG-TABLE']
 FLOORS = {'MIRROR': 11, 'ACCRUE-DECAY-SIG': 6, 'DECAY-UNREACHABLE': 3, 'FOLD-DERIVE': 14, 'WINDOW-FIFO': 8, 'DECAY-CONSERVES': 7, 'AGG-TABLE': 19}
 
 META = {
@@ -34,4 +34,5 @@ def run(ctx, R):
     R.run(folds.check_window_fifo, ctx, R)
     R.run(folds.check_decay_conserves, ctx, R)
     R.run(folds.check_excess_accounting, ctx, R)
+    R.run(folds.check_full_positional, ctx, R)
     R.run(folds.check_agg_table, ctx, R)
